@@ -314,3 +314,12 @@ def is_set_expr(sc, e, set_names) -> bool:
     if isinstance(e, ast.BinOp) and isinstance(e.op, (ast.BitOr, ast.BitAnd, ast.Sub, ast.BitXor)):
         return is_set_expr(sc, e.left, set_names) or is_set_expr(sc, e.right, set_names)
     return False
+
+
+_run_own = run
+
+
+def run(project, chk):      # noqa: F811
+    from checks._borrow import borrow
+    borrow(project, chk, "C12", {"B1"}, "P9", "'the same at any position in a bulk list': every entry gets its result, the entry loop is never left early because of an earlier entry (C12's path rule)")
+    _run_own(project, chk)
